@@ -63,6 +63,27 @@ def _collect(prop, ev, results_iter):
     return violations
 
 
+REAL_PROPS = ("C06", "C10", "C23", "C39", "C40")
+REAL_BUDGET = {"quick": (4, 3), "thorough": (48, 12)}
+
+
+def _add_real_family(prop, tier, seed, ev):
+    """Compiler-produced programs through `gcc -B` (family_real) feed the same property."""
+    from . import family_real
+    n, nsched = REAL_BUDGET[tier]
+    jobs = [{"prop": prop, "seed": seed, "index": i, "tier": tier, "schedules": nsched}
+            for i in range(n)]
+    saved = ev.distinct
+    ev.distinct = set()
+    v = _collect(prop, ev, pool_imap(family_real.run_job, jobs))
+    ev.distinct = saved | ev.distinct
+    ev.rule += (" PLUS family_real: glibc hello / C++ exceptions / TLS / shared library + client compiled "
+                "with gcc and linked through `gcc -B<ld -> simulated wild>` (static, static-pie, pie, "
+                "no-pie) under varied schedules, threads, partitioning, hash seed and write mode; the "
+                "programs are executed and must print their expected output.")
+    return v
+
+
 def run_graph_family(prop, tier, seed):
     from . import family_graph
     level, _ = GRAPH_PROPS[prop]
@@ -77,6 +98,8 @@ def run_graph_family(prop, tier, seed):
     jobs = [{"prop": prop, "seed": seed, "index": i, "tier": tier, "schedules": nsched}
             for i in range(nwl)]
     violations = _collect(prop, ev, pool_imap(family_graph.run_job, jobs))
+    if prop in REAL_PROPS:
+        violations += _add_real_family(prop, tier, seed, ev)
     _probe_gate(prop, tier, ev)
     return report_and_exit(prop, ev, violations)
 
@@ -98,6 +121,8 @@ def run_str_family(prop, tier, seed):
     jobs = [{"prop": prop, "seed": seed, "index": i, "tier": tier, "schedules": nsched}
             for i in range(nwl)]
     violations = _collect(prop, ev, pool_imap(family_str.run_job, jobs))
+    if prop in REAL_PROPS:
+        violations += _add_real_family(prop, tier, seed, ev)
     _probe_gate(prop, tier, ev)
     return report_and_exit(prop, ev, violations)
 
@@ -119,6 +144,7 @@ def run_det_family(prop, tier, seed):
     jobs = [{"prop": prop, "seed": seed, "index": i, "tier": tier, "schedules": nsched}
             for i in range(nwl)]
     violations = _collect(prop, ev, pool_imap(family_det.run_job, jobs))
+    violations += _add_real_family(prop, tier, seed, ev)
     if ev.counters.get("class_never_linked", 0) > nwl // 4:
         ev.write()
         raise HarnessError("too many determinism classes never linked: generator problem")
@@ -318,8 +344,8 @@ def run_c23(tier, seed):
         ev.distinct = set()
         v = _collect(prop, ev, pool_imap(fam.run_job, jobs))
         ev.distinct = before | {f"{name}:{d}" for d in ev.distinct}
-        ev.count(f"family_{name}_runs", sum(1 for _ in ()))
         violations += v
+    violations += _add_real_family(prop, tier, seed, ev)
     return report_and_exit(prop, ev, violations)
 
 
@@ -351,7 +377,7 @@ def run(prop, tier, seed):
 
 FAMILY_MODULES = {"graph": "family_graph", "str": "family_str", "arch": "family_arch",
                    "det": "family_det", "err": "family_err", "fs": "family_fs", "mut": "family_mut",
-                   "js": "family_js", "relink": "family_relink"}
+                   "js": "family_js", "relink": "family_relink", "real": "family_real"}
 MINIMISABLE = ("graph", "str", "arch")
 
 
